@@ -278,21 +278,22 @@ def _may_leave(st: ast.AST, loop_depth: int = 0) -> bool:
 
 def followed_by(func: ast.AST, a: ast.AST, b: ast.AST) -> bool:
     """b executes after a on every normal continuation: b's statement is a later sibling
-    of a's statement in the same block (or b is nested unconditionally in such a sibling
-    is NOT accepted), with no statement in between (inclusive of a's own tail) that may
-    leave."""
+    of a's statement or of one of the compound statements enclosing it, and no statement
+    in between (the rest of each enclosed block after a, then up to b) may leave."""
     sa = stmt_of(a)
-    pa = block_path(func, sa)
-    if not pa:
-        return False
-    _, _, blk, ia = pa[-1]
     sb = stmt_of(b)
-    if sb not in blk:
-        return False
-    ib = blk.index(sb)
-    if ib <= ia:
-        return False
-    return not any(_may_leave(s) for s in blk[ia + 1 : ib])
+    path = block_path(func, sa)
+    for container, field, blk, ia in reversed(path):
+        if any(sb is s for s in blk):
+            ib = [i for i, s in enumerate(blk) if s is sb][0]
+            if ib <= ia:
+                return False
+            return not any(_may_leave(s) for s in blk[ia + 1 : ib])
+        if any(_may_leave(s) for s in blk[ia + 1 :]):
+            return False
+        if isinstance(container, (ast.FunctionDef, ast.AsyncFunctionDef, ast.Lambda)):
+            return False
+    return False
 
 
 def handlers_around(func: ast.AST, node: ast.AST) -> List[Tuple[ast.Try, ast.ExceptHandler, Set[str]]]:
